@@ -148,13 +148,20 @@ def tellIf (s : St) (msg : Msg) (key : TellKey) (r : ModId) : St :=
       | none => destroyMsg s1 copy
     else s
 
+/-- insertion sort (structural, so that examples can be evaluated by the kernel) -/
+def insertBy {α} (le : α → α → Bool) (x : α) : List α → List α
+  | [] => [x]
+  | y :: ys => if le x y then x :: y :: ys else y :: insertBy le x ys
+
+def sortBy {α} (le : α → α → Bool) (l : List α) : List α := l.foldr (insertBy le) []
+
 /-- `fetch_sub`: exact topic first, then the first subscription (table order) whose regex matches -/
 def fetchSub (s : St) (md : Mod) (topic : String) : Option SrcId :=
   let live := md.subs.filter fun i => match s.srcs[i]? with | some x => x.registered | none => false
   match live.find? (fun i => match s.srcs[i]? with | some x => x.topic == topic | none => false) with
   | some i => some i
   | none =>
-    let sorted := live.mergeSort (fun a b => (s.srcs[a]?.map (·.slot)).getD 0 ≤ (s.srcs[b]?.map (·.slot)).getD 0)
+    let sorted := sortBy (fun a b => decide ((s.srcs[a]?.map (·.slot)).getD 0 ≤ (s.srcs[b]?.map (·.slot)).getD 0)) live
     sorted.find? (fun i => match s.srcs[i]? with | some x => s.rx.contains (x.topic, topic) | none => false)
 
 /-- the slots in the order in which iterations scan the table: circularly, starting right after the
@@ -281,13 +288,13 @@ def roleRank : Role → Nat | .user => 0 | .batchTimer => 1 | .tbTimer => 2
 
 /-- registry iteration order: by type, then comparator order inside each ordered set -/
 def sortSrcs (s : St) (l : List SrcId) : List SrcId :=
-  l.mergeSort fun a b =>
+  sortBy (fun a b =>
     match s.srcs[a]?, s.srcs[b]? with
     | some x, some y =>
       let ka := (kindRank x.kind, x.key, roleRank x.role)
       let kb := (kindRank y.kind, y.key, roleRank y.role)
-      ka.1 < kb.1 || (ka.1 == kb.1 && (ka.2.1 < kb.2.1 || (ka.2.1 == kb.2.1 && ka.2.2 ≤ kb.2.2)))
-    | _, _ => true
+      decide (ka.1 < kb.1) || (ka.1 == kb.1 && (decide (ka.2.1 < kb.2.1) || (ka.2.1 == kb.2.1 && decide (ka.2.2 ≤ kb.2.2))))
+    | _, _ => true) l
 
 /-- `manage_srcs(mod, c, RM, stop)` -/
 def manageSrcsRm (s : St) (m : ModId) (stop : Bool) : St :=
